@@ -11,7 +11,8 @@ THEOREMS = ["Pff.RSSpec.C02_encode_length", "Pff.RSSpec.C02_short_as_padded", "P
             "Pff.RSSpec.C02_contract_consistent", "Pff.RSSpec.C02_decode_exact_errors", "Pff.RSSpec.C02_decode_exact_erasures",
             "Pff.RSSpec.C11_codecA_good", "Pff.RSSpec.C11_codecB_good",
             "Pff.RSSpec.C02_decode_within_radius",
-            "Pff.RSSpec.C02_decode_full_block_within_radius"]
+            "Pff.RSSpec.C02_decode_full_block_within_radius",
+            "Pff.RSSpec.C02_decode_sound"]
 MODELLED = [("pyFileFixity/lib/eccman.py", "ECCMan.decode"), ("pyFileFixity/lib/eccman.py", "ECCMan.encode"),
             ("pyFileFixity/lib/eccman.py", "ECCMan.pad"), ("pyFileFixity/lib/eccman.py", "ECCMan.rpad")]
 TRUSTED_BASE = [
